@@ -135,3 +135,10 @@ claim("C11",
        "Every loop in that set has a variant. This is a proof of panic-freedom and termination of the decoder set relative to the trusted base below, for every byte string and every well-formed template; it is not labelled proof because of the tabled exceptions.",
   note="Trusted: the Go compiler's prove pass; go/ssa; the library facts about bytes.Index/HasPrefix/Join, make and range encoded in checker/an/linprove.go; assumption that a template's three framing tags are distinct and its KeyValues have non-nil values. Recursion depth on templates and memory use are not decided.",
   design_ref="DESIGN.md §3 C11, §2 E6")
+
+claim("C03",
+  technique="static must-pass-through (dominance + path conditions) analysis of the decoder's validation, mode-independence check of branch conditions, mirror-arithmetic comparison of the validator's linear forms with the serializer's layout",
+  text="Decides the soundness half structurally: a message is populated or reported parsed only after the raw validation returned nil; the validation has a single accepting path, which requires declared length == measured length and byte-equality of the declared with the recomputed checksum (recomputed with the serializer's own function over the serializer's own prefix length); "
+       "no decision depends on strict mode; missing or non-numeric BodyLength is an error. It does NOT decide that every damaged neighbour of a valid message fails these checks (that is a statement about all 256·n variants; e.g. a NUL inserted into the BeginString value is invisible to both checks).",
+  note="Trusted: go/ssa; canonical rendering; the serializer's layout as established by C01.",
+  design_ref="DESIGN.md §3 C03")
